@@ -532,7 +532,8 @@ def r6_merge_and_probe(ctx):
     if len(dc) == 1 and len(dc[0].args) == 4:
         a = [ast.unparse(x) for x in dc[0].args]
         det = ast.unparse(dc[0])
-        res = stmt_of(cnm, dc[0]).targets[0].id if isinstance(stmt_of(cnm, dc[0]), ast.Assign) else None
+        # the probe's result: a local, or the call written in the test itself
+        res = stmt_of(cnm, dc[0]).targets[0].id if isinstance(stmt_of(cnm, dc[0]), ast.Assign) else ast.unparse(dc[0]).replace(' ', '')
         tests = [ast.unparse(n.test).replace(' ', '') for s in fixed.body for n in ast.walk(s) if isinstance(n, ast.If)]
         full_step = a[1] == nv and a[2] == mv and a[3] == mv
         against_m = res is not None and any(t in (f'{res}<{mv}', f'{res}!={mv}', f'{mv}>{res}', f'{res}<{a[2]}') for t in tests)
@@ -680,7 +681,8 @@ def r7_window(ctx):
     if len(loops) != 1:
         raise CannotAnalyse('determine_slot_numbers: loop not found')
     defs = {t.targets[0].id: ast.unparse(t.value) for t in ds.node.body if isinstance(t, ast.Assign) and isinstance(t.targets[0], ast.Name)}
-    bm = next((k for k, v in defs.items() if v.endswith('.spectrum_bitmap')), None)
+    # the spectrum map: a local holding <oms>.spectrum_bitmap, or that expression written out
+    bm = next((k for k, v in defs.items() if v.endswith('.spectrum_bitmap')), None) or f'{ds.params[0]}.spectrum_bitmap'
     inv = {v.split('.')[-1]: k for k, v in defs.items() if bm and v.startswith(bm + '.') and '(' not in v}
     cen = next((k for k, v in defs.items() if 'geti(' in v and v.endswith(f'({ds.params[1]})')), None)
     miss = [k for k in ('bitmap', 'freq_index', 'freq_index_min', 'freq_index_max') if k not in inv]
